@@ -35,7 +35,7 @@ func (g *G) genFlows() {
 			}
 		}
 		lang := s.Langs[t.Weighted("flowlang", 6, 2, 1)%len(s.Langs)]
-		s.Flows = append(s.Flows, &FlowSpec{UUID: g.uuid(kFlow), Name: fmt.Sprintf("Flow %c", 'A'+i), Type: typ, Lang: lang, Revision: 1})
+		s.Flows = append(s.Flows, &FlowSpec{UUID: g.uuid(kFlow), Name: fmt.Sprintf("Flow %c", 'A'+i), Type: typ, Lang: lang, Revision: 1, ParentFlavor: t.Chance("parent_flavor", 1, 6)})
 	}
 	for i, f := range s.Flows {
 		t.Begin("flow")
@@ -67,7 +67,7 @@ func (g *G) genFlow(idx int, f *FlowSpec) {
 	}
 	g.resultNames = nil
 	// some flows are written to be started from another flow (start_session / enter_flow): they read @parent a lot
-	g.parentFlavor = t.Chance("parent_flavor", 1, 6)
+	g.parentFlavor = f.ParentFlavor
 	// the idiom flows migrated from the legacy editor are full of: call a webhook and save it as a result,
 	// wait for a reply, then read @webhook / @legacy_extra (recreated from the result when the session is reloaded)
 	g.idiom = g.P.AllowWebhookAfter && nn >= 3 && f.Type != "messaging_background" && t.Chance("legacy_webhook_idiom", 1, 4)
@@ -419,7 +419,7 @@ func (g *G) genSwitch(f *FlowSpec, nd *nodeDraft, loc J, subflow bool) {
 		webhookOperand = strings.HasPrefix(operand, "@webhook")
 	}
 	// "where do you live?": a router whose cases are all location tests, under various parents
-	survey := g.S.Locs && !subflow && len(only) == 0 && t.Chance("location_survey", 1, 10)
+	survey := g.S.Locs && !subflow && len(only) == 0 && t.Chance("location_survey", 1, 6)
 	if survey {
 		operand, webhookOperand = "@input.text", false
 		r["operand"] = operand
